@@ -790,7 +790,7 @@ func (r *NgReader) NInterfaces() int {
 
 // Resolution returns the timestamp resolution of acquired timestamps before scaling to NanosecondTimestampResolution.
 func (r *NgReader) Resolution() gopacket.TimestampResolution {
-	if r.options.WantMixedLinkType {
+	if r.options.WantMixedLinkType || len(r.ifaces) == 0 {
 		return gopacket.TimestampResolution{}
 	}
 	return r.ifaces[0].Resolution()
